@@ -12,6 +12,7 @@ import (
 )
 
 func tokScan(src []byte) string {
+	vWatch(src)
 	res := "(panic)"
 	func() {
 		defer func() { recover() }()
@@ -27,6 +28,7 @@ func tokScan(src []byte) string {
 }
 
 func tokStream(src []byte) string {
+	vWatch(src)
 	var parts []string
 	func() {
 		defer func() {
@@ -119,4 +121,13 @@ func vTok(seed int64, count int, extra []string) {
 		vEmitIO(vsx("tok.stream", c11Hex(m)), tokStream(m))
 		vstat("corpus.mutant")
 	}
+	// sources that end inside or right after a token of every kind, without a final newline
+	for _, end := range []string{"12", "7", "x1", "abc", "\"s\"", "$\"a{b}\"", "'c'", "`r`", "1.5", "->", "|>", "=", ")", "]", "}", "<", ">", "_", "()", "/", "//c", "/* c */", "-3", "a.b", ";"} {
+		for _, head := range []string{"", "package main\n\nlet a = ", "let f x =\n  x + "} {
+			src := []byte(head + end)
+			vEmitIO(vsx("tok.stream", c11Hex(src)), tokStream(src))
+			vstat("eof.in-token")
+		}
+	}
+	vWatchOff.Store(true)
 }
